@@ -683,3 +683,84 @@ Definition check_C20_proxy (evs : list pev) (outs : list (list pout)) : bool :=
   sorted_ltb (map fst ins)
   && forallb (fun r => existsb (fun e => N.eqb (fst e) (fst r) && N.eqb (snd e) (snd r)) ins) rs
   && nodupN (map fst rs).
+
+(* ====================================================================== *)
+(* Part 5: executable unit driver for the components of the transition system, used to compare
+   the session-side handlers with the real NodeSession handlers (E3b): the same functions
+   do_spawn/do_exit/do_join/do_leave/do_deliverf/do_target/do_deliverb/do_send/do_proxy that
+   [step] is made of, applied to frames handed in directly (chains of one stage, emptied after
+   each operation). *)
+
+Definition with_chains (st : sys) (f b : list (list frame)) (c p : list frame) : sys :=
+  mkSys (px st) f b c p (tg st) (up st) (aband st) (sent st) (dlv st) (ins st) (calls st) (res st)
+        (lossy st).
+
+Fixpoint iter {A} (n : nat) (f : A -> A) (x : A) : A :=
+  match n with O => x | S k => iter k f (f x) end.
+
+Inductive uop :=
+| USpawn (pid : N) | UJoin (pid g : N) | ULeave (pid g : N) | UExit (pid : N)   (* local actors *)
+| URecvF (f : frame)            (* a Cast / Call frame arrives *)
+| URecvB (f : frame)            (* a Reply / Spawn / Terminate / PgJoin / PgLeave frame arrives *)
+| USend (pid : N) (m : msg) (port : N)   (* somebody sends through the remote reference *)
+| UAbandon (port : N).
+
+(* what is visible on the wire (no ghost fields) *)
+Inductive wf :=
+| WMsg (to tag : N) (m : msg) | WReply (to tag : N) (d : list N)
+| WSpawn (pid : N) | WTerm (pid : N) | WJoin (g pid : N) | WLeave (g pid : N).
+
+Definition wire_of (f : frame) : wf :=
+  match f with
+  | FMsg to tag m _ => WMsg to tag m
+  | FReply to tag d _ => WReply to tag d
+  | FSpawn p => WSpawn p | FTerm p => WTerm p | FJoin g p => WJoin g p | FLeave g p => WLeave g p
+  end.
+
+Record uout := mkU {
+  u_ok : bool;                         (* the send was accepted *)
+  u_wire : list wf;                    (* frames written by the session *)
+  u_dlv : list (N * msg);              (* messages handled by local actors *)
+  u_res : list (N * list N);           (* reply ports resolved *)
+  u_px : list (N * bool * list N) }.   (* the proxies of interest: alive, groups *)
+
+Definition uresp (pid : N) (m : msg) : option (list N) :=
+  if N.even (m_v m) then Some (pid :: m_a m) else None.
+
+Section Unit.
+  Variable fuel : nat.
+  Variables xs ys : list N.   (* remote pids / local pids of interest *)
+
+  Definition usettle (st : sys) : sys :=
+    iter fuel (fun s => fold_left (fun s q => do_target uresp s q) ys
+                          (fold_left (fun s q => do_proxy s q) xs s)) st.
+
+  Definition uapply (st : sys) (o : uop) : sys * bool :=
+    match o with
+    | USpawn pid => (do_spawn st pid, true)
+    | UJoin pid g => (do_join st pid g, true)
+    | ULeave pid g => (do_leave st pid g, true)
+    | UExit pid => (do_exit st pid, true)
+    | URecvF f => (do_deliverf (with_chains st [[f]] (bwd st) (ctl st) (pool st)), true)
+    | URecvB f => (do_deliverb (with_chains st (fwd st) [[f]] (ctl st) (pool st)), true)
+    | USend pid m port => (do_send st pid m port,
+                           x_alive (px st pid) && negb (m_call m && port_used st port))
+    | UAbandon port => (do_abandon st port, true)
+    end.
+
+  Definition ustep (st : sys) (o : uop) : sys * uout :=
+    let '(s1, ok) := uapply st o in
+    let s2 := usettle s1 in
+    let out := mkU ok
+                 (map wire_of (ctl s2 ++ pool s2 ++ flat (fwd s2)))
+                 (flat_map (fun y => map (pair y) (skipn (length (dlv st y)) (dlv s2 y))) ys)
+                 (skipn (length (res st)) (res s2))
+                 (map (fun q => (q, x_alive (px s2 q), sortN (x_groups (px s2 q)))) xs) in
+    (with_chains s2 [[]] [[]] [] [], out).
+
+  Fixpoint urun (st : sys) (ops : list uop) : list uout :=
+    match ops with
+    | [] => []
+    | o :: r => let '(s1, out) := ustep st o in out :: urun s1 r
+    end.
+End Unit.
